@@ -139,9 +139,14 @@ AluIdxZ(u) == { <<"Z", o, 3, 7, ai, 1, 0>> : o \in DivModOps, ai \in 1..NV }
 ShiftOps == {o \in AluOpcodes : Op(o) \in {LSH, RSH, ARSH}}
 AluIdxS(u) == { <<"S", o, 2, 6, ai, bi, I32[ii]>> : o \in ShiftOps, ai \in {13, 14, 16, 18}, bi \in 4..8, ii \in 5..9 }
 
+\* P: immediate forms with every power of two, its neighbour below and its negation (strength
+\* reduction, mask tricks), on four dividend / multiplicand shapes
+Pow2ish == { 2^k : k \in 0..30 } \cup { 2^k - 1 : k \in 1..30 } \cup { -(2^k) : k \in 0..30 } \cup { MinI32, 2147483647 }
+AluIdxP(u) == { <<"P", o, 5, 0, ai, 1, m>> : o \in ImmForms, ai \in {13, 14, 16, 18}, m \in Pow2ish }
+
 AluCases(u) ==
   { AluCase(t[1], t[2], t[3], t[4], t[5], t[6], t[7], "nodata") :
-      t \in Sample(AluIdxA(u) \cup AluIdxB(u) \cup AluIdxC(u) \cup AluIdxD(u)) \cup AluIdxZ(u)
+      t \in Sample(AluIdxA(u) \cup AluIdxB(u) \cup AluIdxC(u) \cup AluIdxD(u) \cup AluIdxP(u)) \cup AluIdxZ(u)
             \cup {x \in AluIdxS(u) : Keep(HashId(x) \div 3)} }
   \cup
   \* E: a few on every VM kind (never sampled away)
@@ -808,12 +813,13 @@ FlowJoinJmp(k) ==
 \* distance occurs) run twice, closed by a conditional or an unconditional backward jump; and a loop
 \* whose header directly follows a conditional jump, dividing by a register that changes in the loop
 FlowLoop(a, b, uncond) ==
-  LET body == [k \in 1..(a + b) |-> IF k <= a THEN Add64I(0, 1) ELSE Mov64R(3, 4)]
-      n == a + b
+  LET n == a + b
+      \* (run-length segments: the body may be thousands of instructions long)
+      body == (IF a > 0 THEN << Seg(a, Add64I(0, 1)) >> ELSE <<>>) \o (IF b > 0 THEN << Seg(b, Mov64R(3, 4)) >> ELSE <<>>)
   IN [BaseCase EXCEPT !.id = <<"loop", a, b, uncond, 0, 0, 0>>, !.fam = "flow", !.vm = "nodata",
-        !.prog = Flat(<< Mov64I(0, 0), Mov64I(4, 44), Mov64I(5, 2) >> \o body
-                      \o (IF uncond = 0 THEN << Add64I(5, -1), I(85, 5, 0, -(n + 2), 0), ExitI >>                 \* jne r5, 0, back
-                          ELSE << Add64I(5, -1), JeqI(5, 0, 1), JaI(-(n + 3)), ExitI >>))]
+        !.prog = Flat(<< Mov64I(0, 0), Mov64I(4, 44), Mov64I(5, 2) >>) \o body
+                 \o Flat(IF uncond = 0 THEN << Add64I(5, -1), I(85, 5, 0, -(n + 2), 0), ExitI >>                 \* jne r5, 0, back
+                         ELSE << Add64I(5, -1), JeqI(5, 0, 1), JaI(-(n + 3)), ExitI >>)]
 FlowLoopDiv(o) ==
   [BaseCase EXCEPT !.id = <<"loopdiv", o, 0, 0, 0, 0, 0>>, !.fam = "flow", !.vm = "nodata",
      !.prog = Flat(<< Mov64I(6, 100000), Mov64I(2, 5), Mov64I(5, 3), JeqI(5, 0, 4),
@@ -826,6 +832,7 @@ FlowCases(u) ==
   \* (a x 7 or 4 bytes + b x 3 bytes of x86, b up to 6: every code distance from a few dozen bytes to
   \* beyond 170 occurs, whatever the exact encodings are)
   { FlowLoop(t[1], t[2], t[3]) : t \in { x \in (0..40) \X (0..6) \X {0, 1} : x[1] + x[2] > 0 /\ (Deep \/ (x[1] >= 8 /\ x[1] <= 24)) } } \cup
+  { FlowLoop(a, 1, un) : a \in {100, 300, 1000, 5000}, un \in {0, 1} } \cup      \* middle sizes (code distances of 0.5 - 35 kB)
   { FlowLoopDiv(o) : o \in {63, 60, 159, 156} } \cup
   { FlowDead(k) : k \in {1, 2} } \cup
   { FlowJoin(oi, t) : oi \in 1..Len(JoinOps), t \in {0, 1} } \cup
